@@ -419,11 +419,14 @@ pub struct C03Cell {
     pub at_event: u64,
     /// offset between the members' start instants (0 = all in one tick)
     pub phase: u64,
+    /// the members that will fail refuted a suspicion earlier: their
+    /// incarnation is 1 while the survivors' is 0
+    pub bumped: bool,
 }
 
 impl C03Cell {
     pub fn label(&self) -> String {
-        format!("n={} failing={:?} kind={} renewable={} mt={} after-event={} phase={}", self.n, self.failing, if self.leave { "leave" } else { "crash" }, self.renew, self.mt, self.at_event, self.phase)
+        format!("n={} failing={:?} kind={} renewable={} mt={} after-event={} phase={}{}", self.n, self.failing, if self.leave { "leave" } else { "crash" }, self.renew, self.mt, self.at_event, self.phase, if self.bumped { " failing-members-refuted-before" } else { "" })
     }
 }
 
@@ -438,6 +441,14 @@ pub fn run_c03(cell: &C03Cell, devs: &BTreeMap<usize, usize>) -> RunResult {
     if let Err(e) = form_cluster(&mut sim, n, &cfg, cell.renew, cell.phase) {
         res.violations.push(("machinery:formation".into(), e));
         return res;
+    }
+    if cell.bumped {
+        for f in &cell.failing {
+            let me = *sim.nodes[*f as usize].as_ref().unwrap().identity();
+            sim.call(*f, &Ev::Apply(vec![foca::Member::new(me, 0, State::Suspect)], true));
+        }
+        let until = sim.now + 4 * PERIOD;
+        while sim.step(until).is_some() {}
     }
     sim.chooser.deviations = devs.clone();
     sim.chooser.recording = true;
@@ -632,11 +643,14 @@ pub fn c03(tier: &str) -> Report {
                         while at < rot {
                             // deviation bound per cell
                             let d = if th { if n <= 3 { 2 } else { 1 } } else { 1 };
-                            cells.push((C03Cell { n, failing: failing.clone(), leave, renew, mt, at_event: at, phase: 17 }, d));
+                            cells.push((C03Cell { n, failing: failing.clone(), leave, renew, mt, at_event: at, phase: 17, bumped: false }, d));
+                            if at % 2 == 0 {
+                                cells.push((C03Cell { n, failing: failing.clone(), leave, renew, mt, at_event: at, phase: 17, bumped: true }, usize::from(th)));
+                            }
                             // other relative alignments of the members' probe loops
                             if at % 3 == 0 && (th || n <= 3) {
                                 for phase in [0u64, 41] {
-                                    cells.push((C03Cell { n, failing: failing.clone(), leave, renew, mt, at_event: at, phase }, d.min(1)));
+                                    cells.push((C03Cell { n, failing: failing.clone(), leave, renew, mt, at_event: at, phase, bumped: false }, d.min(1)));
                                 }
                             }
                             at += step;
@@ -660,7 +674,7 @@ pub fn c03(tier: &str) -> Report {
         });
         rep.sample(json!({"cell": c.label(), "schedule": "default", "events_from_the_window_start": tr}));
     }
-    rep.rule = "fault cells = cluster size x EVERY non-empty proper subset failing x {crash, leave_cluster while still running} x renewable or not x EVERY event index of one full probe rotation of the default schedule; on top of each cell every schedule with <= D deviations (latencies, tie-breaks, RNG draws). distinct = fault cells".into();
+    rep.rule = "fault cells = cluster size x EVERY non-empty proper subset failing x {crash, leave_cluster while still running} x renewable or not x EVERY event index of one full probe rotation of the default schedule (every second one also with the failing members at incarnation 1 after an earlier refuted suspicion); on top of each cell every schedule with <= D deviations (latencies, tie-breaks, RNG draws). distinct = fault cells".into();
     rep.assume("bound asserted: (2n+1) probe periods + suspect_to_down_after after the failure; suspect_to_down_after >= 2 probe periods as in every Config preset");
     rep.assume("probe_period=100, probe_rtt=40, suspect_to_down_after=300 ticks; latencies 1 or 9 ticks; timers on time");
     rep
@@ -688,7 +702,7 @@ pub struct C04Cell {
 
 impl C04Cell {
     pub fn label(&self) -> String {
-        format!("n={} notify_down={} renewable={} fanout={} mt={} flavour={} phase={} lost-datagram#{}", self.n, self.notify_down, self.renew, self.fanout, self.mt, ["plain", "one-slow-ack", "join-with-periodic-gossip"][self.flavour as usize], self.phase, self.drop)
+        format!("n={} notify_down={} renewable={} fanout={} mt={} flavour={} phase={} lost-datagram#{}", self.n, self.notify_down, self.renew, self.fanout, self.mt, ["plain", "one-slow-ack", "join-with-periodic-gossip", "members-refuted-before(incarnations 1,2,0..)"][self.flavour as usize], self.phase, self.drop)
     }
     fn cfg(&self) -> Cfg {
         Cfg { max_tx: self.mt, fanout: self.fanout, notify_down: self.notify_down, gossip: (self.flavour == 2).then_some((150, 1)), ..base_cfg() }
@@ -718,6 +732,21 @@ fn c04_prepare(cell: &C04Cell) -> Result<Sim, String> {
         // each of them can be the lost datagram, while the cluster stays
         // otherwise timely.
         sim.delay_next_ack = Some(45);
+    }
+    if cell.flavour == 3 {
+        // earlier, long-refuted suspicions: member 0 runs at incarnation 1,
+        // member 1 at incarnation 2, the others at 0
+        for (node, times) in [(0u8, 1u16), (1, 2)] {
+            if (node as usize) >= n {
+                continue;
+            }
+            for inc in 0..times {
+                let me = *sim.nodes[node as usize].as_ref().unwrap().identity();
+                sim.call(node, &Ev::Apply(vec![foca::Member::new(me, inc, State::Suspect)], true));
+                let until = sim.now + 3 * PERIOD;
+                while sim.step(until).is_some() {}
+            }
+        }
     }
     if cell.flavour == 2 {
         let t = sim.now + 3;
@@ -810,8 +839,11 @@ pub fn c04(tier: &str) -> Report {
             for renew in [false, true] {
                 for &fanout in &[1usize, 3] {
                     for &mt in &[2u8, 10] {
-                        for flavour in 0..3u8 {
+                        for flavour in 0..4u8 {
                             if flavour == 2 && n < 3 {
+                                continue;
+                            }
+                            if flavour == 3 && !th && n > 3 {
                                 continue;
                             }
                             if !th && ((fanout == 1) != (mt == 2) || (flavour >= 2 && (renew != notify_down))) {
@@ -856,7 +888,7 @@ pub fn c04(tier: &str) -> Report {
         });
         rep.sample(json!({"cell": c.label(), "schedule": "default", "events_from_the_window_start": tr}));
     }
-    rep.rule = "fault cells = cluster size x notify_down_members x renewable x fan-out x max_transmissions x traffic flavour (plain / slow links so that indirect-probe relays exist / periodic gossip / a join inside the window) x EVERY datagram index of a window of 2n+2 probe periods lost; on top of each cell every schedule with <= D deviations. distinct = fault cells".into();
+    rep.rule = "fault cells = cluster size x notify_down_members x renewable x fan-out x max_transmissions x traffic flavour (plain / slow links so that indirect-probe relays exist / periodic gossip / a join inside the window / members at incarnations 1 and 2 after earlier refuted suspicions) x EVERY datagram index of a window of 2n+2 probe periods lost; on top of each cell every schedule with <= D deviations. distinct = fault cells".into();
     rep.assume("probe_period=100, probe_rtt=40, suspect_to_down_after=300 ticks; latencies {1,9} ticks; in the one-slow-ack flavour exactly one Ack takes 45 extra ticks (> probe_rtt, < probe_period) so that an indirect probe cycle exists whose relays can be the lost datagram");
     rep.assume("the recovery clause is judged on the members of the formed cluster (a joiner whose own Announce or Feed is lost is not yet part of it)");
     rep.assume("horizon: window + (2n+4) probe periods + suspect_to_down_after");
